@@ -13,6 +13,8 @@ Line-protocol operations of the macro token-stream model (`RF/Model/MacroFmt.lea
                                          in the order `perm` (indices into the insertion order, `_` = none)
   mac.undo.judge <hex in> <hex seen>  -> none | bail | ok | bad:<hex of one model answer>
                                          is `seen` what the loop gives for SOME order of the map
+  mac.safe <hex>                      -> none | safe | unsafe                the hypothesis `noSpurious` of
+                                         `replaceNames_roundtrip_partial`, evaluated
   mac.squeeze <hex>                   -> <hex>                               the text without white space
   mac.branches <tts>                  -> none | <branch>;<branch>…           `MacroParser::parse`; a branch is
                                          `<D>|<tts of the matcher>|<D>|<semi 0/1>`
@@ -216,6 +218,11 @@ def handle (op : String) (args : List String) : Option String :=
       if outs.all (·.isNone) then pure "bail"
       else if outs.any (· == some seen) then pure "ok"
       else pure ("bad:" ++ encChars ((outs.filterMap id).headD []))
+  | "mac.safe", [h] => do
+    let s ← decChars h
+    match replaceNames s with
+    | none => pure "none"
+    | some _ => pure (if noSpurious s then "safe" else "unsafe")
   | "mac.squeeze", [h] => do
     let s ← decChars h
     pure (encChars (s.filter (!RF.Comment.isWs ·)))
